@@ -458,7 +458,7 @@ Section Translator.
         | Some (t, _) =>
             obind (sub_type t p) (fun t' =>
               match t' with
-              | TBool | TTuple [] => Some (t', L (sym (x :: p)))
+              | TBool => Some (t', L (sym (x :: p)))
               | _ =>
                   (* a sized element: its bits; a tuple-typed element: the flat list of its bits,
                      named as translate_argument names them (as a tuple-typed name evaluates) *)
@@ -626,22 +626,6 @@ Fixpoint ty_good (t : ty) : bool :=
   | _ => (2 <=? ty_size t)%nat
   end.
 
-(* no subscript in e selects an EMPTY tuple component: for `u[0]` with u = ((), a) the code
-   returns (Tuple[()], Symbol("u.0")), ONE fabricated symbol for a value that has no bits *)
-Fixpoint sub_ne (G : env) (e : pexp) : bool :=
-  match e with
-  | ESub x p =>
-      match lookup G x with
-      | Some (t, _) => match sub_type t p with Some (TTuple []) => false | _ => true end
-      | None => true
-      end
-  | EBoolOp _ l | ETuple l => forallb (sub_ne G) l
-  | EUn _ a | EInt a | EFloat a => sub_ne G a
-  | EIf c t f => sub_ne G c && sub_ne G t && sub_ne G f
-  | ECmp _ a b | EBin _ a b => sub_ne G a && sub_ne G b
-  | _ => true
-  end.
-
 (* no definition reads a symbol that an EARLIER definition of the same list assigns:
    evaluating the list in order is then evaluating it simultaneously *)
 Fixpoint seq_ok (ds : defs) : bool :=
@@ -662,7 +646,7 @@ Definition fresh_for (num : sname -> nat) (G : env) (x : ident) (ds : defs) : bo
                      || forallb (fun s => negb (existsb (Nat.eqb (num s)) (map fst ds))) (snd (snd yb))) G.
 
 (* binding the translated value r to the name x.  The side condition of the soundness theorems
-   is seq_ok (full = false), with sub_ne on the statement's expression.  With full = true also: the assigned symbol NUMBERS are
+   is seq_ok alone (full = false).  With full = true also: the assigned symbol NUMBERS are
    distinct and clobber no other binding — consequences of an injective numbering (P_Texp),
    evaluated by the correspondence run on the numbering table it uses *)
 Definition res_guard_g (full : bool) (num : sname -> nat) (G : env) (x : ident) (r : tres) : bool :=
@@ -672,10 +656,8 @@ Definition res_guard_g (full : bool) (num : sname -> nat) (G : env) (x : ident) 
 Definition stmt_guard_g (full : bool) (num : sname -> nat) (G : env) (rt : ty) (s : pstmt) : bool :=
   match s with
   | SAssign x e =>
-      sub_ne G e &&
       match trans_exp num G e with Some r => res_guard_g full num G x (regroup_value r) | None => true end
   | SReturn e =>
-      sub_ne G e &&
       match obind (trans_exp num G e) (ret_coerce rt) with
       | Some r => res_guard_g full num G ret_id (regroup_value r)
       | None => true
